@@ -8,14 +8,14 @@ from .. import rules_layout as rl
 DECIDES = ('derivative tables are indexed [u-order][v-order] consistently from producers to consumers: SKL[k][l] is written with k of '
            'direction u and l of direction v (AX6), tangent_surface reads [1][0] as the u- and [0][1] as the v-tangent, the normal is the cross '
            'product of these two distinct first partials, and normalisation goes through vector_normalize exactly on the `normalize` path (TN1); '
-           'the order passed to basis_function_ders is min(degree_d, .) of the call\'s own direction (BC1: the callee allocates min(degree, order) + 1 '
-           'rows); in the rational quotient rules every term pairs the weight derivative w^(i[,j]) with the point derivative of complementary '
+           'the order passed to basis_function_ders is min(degree_d, .) of the call\'s own direction (BC1); '
+           'in the rational quotient rules every term pairs the weight derivative w^(i[,j]) with the point derivative of complementary '
            'order, i.e. index sums equal the target order (k[, l]), with the binomial C(k, i) resp. C(l, j) of the same indices, weights read from '
            'slot [-1] and the result divided by w^(0[,0]) (RQ1); in the alternative evaluators basis tables are indexed [function][degree - order] '
            'with function/order indices of the matching PK/PKL positions and loops over degree - order + 1 functions (A34); derivative control '
            'point tables are written at [u-order][v-order][u-index][v-index] with direction-coherent indices, net strides and knot-vector slices '
            '(PK1, LY1, AX1); [SKEL, bounded] for degrees 1..4, orders 0..degree+2, every span: no index error, no None placeholder consumed in any '
-           'of the 6 derivative evaluators and 4 helpers.')
+           'of the 6 derivative evaluators and 4 helpers. the [0, 1] parameter rejection is only evaluated for shapes with normalised knot vectors (RG1).')
 NOT_DECIDED = 'the value of any derivative; unit length of normalised vectors (numerical); hodograph control point values; finite-difference agreement.'
 TECHNIQUE = 'axis-tag dataflow, index-sum identities in polynomial normal form, call-contract guards; bounded index-skeleton interpretation for definedness'
 
@@ -38,6 +38,9 @@ def check(m, run):
     rl.ly1_canonical(m, run, funcs)
     ra.ax1_helper_calls(m, run, funcs + [m.func('helpers.basis_function_ders'), m.func('helpers.basis_function_all')])
     hodographs(m, run)
+    from .. import ops_common as oc
+    oc.unit_range_rule(m, run, ('derivatives',))
+    run.floor('RG1.unit-range-check-only-when-normalised', 2, 'Curve.derivatives, Surface.derivatives')
     # the quotient rules multiply by linalg.binomial_coefficient: closed form k!/(i!(k-i)!) or, for loop forms, no floored factor (shared with C16)
     from . import c16
     c16.check_binomial(m, run)
